@@ -11,6 +11,13 @@ RUN   harness/C19_auth        SaltToken
                               -> recording HTTP server (fake api_client_authorizations database)
       harness/C19_keepstore   remoteProxy.Get -> remoteClient -> recording HTTP server
 JUDGE specs/federation/TokenSaltTrace.tla  (TokenSaltContract)
+
+Second part: ONE request context served at several destinations (remote R1, remote R2, local, fan-out by PDH)
+GEN   specs/federation/TokenSeq.tla      Gen_TokenSeq.cfg (1-2 tokens x plans of 2-3 destinations)
+RUN   harness/C19_federation/provseq_driver_test.go  (real federation.Conn, two rpc.Conn remotes with
+                                          saltedTokenProvider, recording servers, recording local stub)
+JUDGE specs/federation/TokenSeqTrace.tla  (TokenSeqContract: salted for THAT destination, never a token salted for
+                                          another cluster, the context's credentials unchanged)
 """
 import concurrent.futures
 import os
@@ -151,8 +158,26 @@ def run(ctx):
         for ev in t[1:]:
             if ev["ev"] == "forward":
                 ev["leakclass"] = leak_class(by_id[t[0]["scn"]], ev)
+    # second part: one request context, several destinations
+    if ctx.thorough:
+        mc(sd, "TokenSeq", "MC_TokenSeq.cfg", timeout=900, label="one context, 2-3 destinations: within TokenSeqContract, terminates")
+    seqgot, r = ctx.gen(sd, "TokenSeq", "Gen_TokenSeq.cfg", timeout=900,
+                        label="scenario emission (one context, several destinations) + invariants")
+    ctx.extra["provseq_scenarios_emitted"] = len(seqgot)
+    rnd.shuffle(seqgot)
+    seqscns = []
+    for s in seqgot[:None if ctx.thorough else 900]:
+        s["id"] = 5 * base + len(seqscns)
+        s["rseed"] = ctx.seed * 31
+        seqscns.append(s)
+    ov = ctx.harness_overlay("lib/controller/federation", "harness/C19_federation", extra=PAM)
+    seqevents, out = ctx.go_run_driver("lib/controller/federation", ov, "TestVerifC19ProvSeq$", seqscns, timeout=1500)
+    seq_by_id = {s["id"]: s for s in seqscns}
+    ctx.judge(sd, "TokenSeqTrace", "Judge_TokenSalt.cfg", seqevents, scenario_of=seq_by_id, timeout=1200,
+              max_rejects=25 if ctx.thorough else 6)
+    ctx.extra["provseq_traces"] = len(vlib.split_traces(seqevents))
     traces = vlib.split_traces(events)
-    ctx.evaluations = len(traces)
+    ctx.evaluations = len(traces) + ctx.extra["provseq_traces"]
     # impl-model prediction vs. recorded outcome (drift only)
     form_of = lambda o: ("both" if o["salted"] and o["same"] else "salted" if o["salted"] else
                          "same" if o["same"] else "dropped")
